@@ -52,3 +52,53 @@ Fixpoint prec_ok (e : pexpr) : bool :=
   | PAdd a b | PSub a b | PSafe a b => prec_ok a && prec_ok b
   | PBin _ p _ a b => (0 <? p) && prec_ok a && prec_ok b
   end.
+
+(* ---------------- character level: the string the sympy templates produce for a tree ---------------- *)
+Definition fun_name (f : Z) : str :=
+  if f =? SIN then [115; 105; 110] else if f =? COS then [99; 111; 115] else if f =? SINH then [115; 105; 110; 104]
+  else if f =? COSH then [99; 111; 115; 104] else if f =? EXPONENTIAL then [101; 120; 112] else if f =? LOGARITHM then [108; 111; 103]
+  else if f =? ABS then [97; 98; 115] else [115; 113; 114; 116].
+Definition op_text (n : Z) (hat : bool) : str :=
+  if n =? MULTIPLICATION then [42] else if n =? DIVISION then [47] else if hat then [94] else [42; 42].
+(* [hat = false]: what the printer writes ("**"); [hat = true]: after the tokenizer's replace("**", "^") *)
+Fixpoint render (hat : bool) (e : pexpr) : str :=
+  match e with
+  | PVar k => [88; 95] ++ dec k
+  | PInt k => dec k
+  | PLitc t => t
+  | POp1 f a => fun_name f ++ [40] ++ render hat a ++ [41]
+  | PAdd a b => render hat a ++ [32; 43; 32] ++ render hat b
+  | PSub a b => render hat a ++ [32; 45; 32; 40] ++ render hat b ++ [41]
+  | PBin n _ _ a b => [40] ++ render hat a ++ [41] ++ op_text n hat ++ [40] ++ render hat b ++ [41]
+  | PSafe a b => [97; 98; 115; 40] ++ render hat a ++ [41] ++ op_text POWER hat ++ [40] ++ render hat b ++ [41]
+  end.
+(* the token texts, before lower-casing *)
+Fixpoint toks_text (e : pexpr) : list str :=
+  match e with
+  | PVar k => [[88; 95] ++ dec k] | PInt k => [dec k] | PLitc t => [t]
+  | POp1 f a => [fun_name f; [40]] ++ toks_text a ++ [[41]]
+  | PAdd a b => toks_text a ++ [[43]] ++ toks_text b
+  | PSub a b => toks_text a ++ [[45]; [40]] ++ toks_text b ++ [[41]]
+  | PBin n _ _ a b => [[40]] ++ toks_text a ++ [[41]; op_text n true; [40]] ++ toks_text b ++ [[41]]
+  | PSafe a b => [[97; 98; 115]; [40]] ++ toks_text a ++ [[41]; [94]; [40]] ++ toks_text b ++ [[41]]
+  end.
+
+(* what str(float) looks like for a finite float: digits, '.', 'e', '+', '-'; starts with a digit or '-', ends with a digit,
+   every '-' is followed by a digit, it is not an integer literal *)
+Definition lit_char (c : Z) : bool := is_digit c || (c =? 46) || (c =? 101) || (c =? 43) || (c =? 45).
+Fixpoint minus_ok (s : str) : bool :=
+  match s with x :: r => (match r with y :: _ => negb (x =? 45) || is_digit y | [] => negb (x =? 45) end) && minus_ok r | [] => true end.
+Definition lit_ok (t : str) : bool :=
+  forallb lit_char t && minus_ok t && negb (all_digits t) &&
+  match t with c :: _ => is_digit c || (c =? 45) | [] => false end && is_digit (last t 0).
+(* trees whose texts are printable: variables and integers non-negative, literals as above, the operators of the templates *)
+Fixpoint text_ok (e : pexpr) : bool :=
+  match e with
+  | PVar k | PInt k => 0 <=? k
+  | PLitc t => lit_ok t
+  | POp1 f a => existsb (Z.eqb f) [SIN; COS; SINH; COSH; EXPONENTIAL; LOGARITHM; ABS; SQRT] && text_ok a
+  | PAdd a b | PSub a b | PSafe a b => text_ok a && text_ok b
+  | PBin n pr w a b =>
+      (((n =? MULTIPLICATION) && (pr =? 1) && negb w) || ((n =? DIVISION) && (pr =? 1) && negb w) || ((n =? POWER) && (pr =? 2) && w))
+      && text_ok a && text_ok b
+  end.
